@@ -115,6 +115,9 @@ func (obj *ChmmTransitionMatrix) complementConstraints() error {
   cmap := make(map[[2]int]interface{})
   for _, constraint := range obj.constraints {
     for _, cell := range constraint {
+      if cell[0] < 0 || cell[0] >= n || cell[1] < 0 || cell[1] >= m {
+        return fmt.Errorf("equality constraint on entry (%d,%d) is out of bounds for a transition matrix of dimension %dx%d", cell[0], cell[1], n, m)
+      }
       if _, ok := cmap[cell]; ok {
         return fmt.Errorf("entry (%d,%d) has multiple equality constraints", cell[0], cell[1])
       } else {
